@@ -357,6 +357,7 @@ func (m *Machine) callBuiltin(th *Thread, name string, args []Value, caller *Fra
 				m.mapAccess(v, true)
 				m.logUndoMap(v)
 				v.entries = nil
+				v.index, v.symKeys = nil, 0
 			}
 			return nil
 		}
